@@ -153,9 +153,13 @@ def history(R, B, rng, n_ops, W):
         c = rng.choice(cells)
         builders.append(c.to_builder() if rng.random() < 0.7 or not slices else rng.choice(slices).to_builder())
 
+    def fresh_builder():
+        # the optional size argument: a builder declared smaller than a cell, which the stores below then fill up to and beyond that size
+        return B.Builder(size=rng.choice([8, 16, 64, 1023])) if rng.random() < 0.5 else B.Builder()
+
     def op_store():
-        if not builders:
-            builders.append(B.Builder())
+        if not builders or rng.random() < 0.08:
+            builders.append(fresh_builder())
         b = rng.choice(builders)
         touched.append(b)
         k = rng.randrange(8)
@@ -178,7 +182,7 @@ def history(R, B, rng, n_ops, W):
 
     def op_end_cell():
         if not builders:
-            builders.append(B.Builder().store_uint(5, 7))
+            builders.append(fresh_builder().store_uint(5, 7))
         b = rng.choice(builders)
         new_cell(b.end_cell(), 'end_cell')
 
@@ -368,6 +372,25 @@ def stateless(R, B, rng):
                 R.count('dict_parse_sequences')
                 R.check(st == 'ok' and dict(got) == m, f'dict-parse-depends-on-history', f'{pname} of a {w}-bit dictionary returned {mon.srepr(got, 80)} after other dictionaries were parsed; '
                         f'expected {m}', {'width': w, 'map': {str(k): v for k, v in m.items()}, 'parser': pname})
+    # a serialisation that is refused (a value that cannot be encoded sits in the middle of nested tuples) leaves the caller's values as they were
+    from pytoniq_core.tlb.vm_stack import VmStack as _VS, VmTuple as _VT
+    for bad in (2 ** 300, -2 ** 300, 1.5, 'text'):
+        inner = _VT([1, bad, 3])
+        mid = _VT([7, inner, 9, _VT([4, 5])])
+        data = [11, mid, 13]
+        struct = lambda v: [struct(x) for x in v.list] if isinstance(v, _VT) else ([struct(x) for x in v] if isinstance(v, list) else repr(v))
+        snap = lambda: (struct(data), struct(mid), struct(inner))
+        before = snap()
+        st, c = mon.call(_VS.serialize, data)
+        R.count('refused_serialisations')
+        R.check(snap() == before, 'refused-serialize-changes-input', f'VmStack.serialize {"raised" if st == "exc" else "returned"} for a stack holding {bad!r} and left the caller\'s tuples changed: '
+                f'lengths now stack {len(data)}, outer tuple {len(mid.list)}, inner tuple {len(inner.list)}', {'bad_value': repr(bad), 'outcome': st})
+        if st == 'exc':
+            inner.list[1] = 2
+            st2, c2 = mon.call(_VS.serialize, data)
+            st3, c3 = mon.call(_VS.serialize, [11, _VT([7, _VT([1, 2, 3]), 9, _VT([4, 5])]), 13])
+            R.check(st2 == 'ok' and st3 == 'ok' and c2.hash == c3.hash, 'serialize-after-refusal-differs', 'after a refused serialisation the repaired values serialise differently from fresh equal values',
+                    {'bad_value': repr(bad)})
     # VM stack: serialising twice, caller-owned values untouched
     from pytoniq_core.tlb.vm_stack import VmStack, VmTuple
     inner = VmTuple([1, 2, 3])
